@@ -14,6 +14,7 @@
            term   : every terminal of the tree satisfies `termSyn` (a self-contained operand)
            clean  : every terminal of the tree satisfies `clean` (hypothesis of seq_replace_ok)
            adm    : the program satisfies `Admissible`, the hypothesis of the theorems
+           exact  : every numeric constant of the program prints exactly (`exact6` / `intExact`)
     gchk <fmt 0..3> <hex text printed by vita> <nrows> <ncats> <gene>*(nrows*ncats) <tree>
         -> the flags of `chk` computed on the program UNFOLDED by the model from locus [0,0] of the
            genome (row-major matrix), `render` being `exportG` (language() reading genes by locus), plus
@@ -32,6 +33,7 @@
 import Vita.C19.Model
 import Vita.C19.Genome
 import Vita.C19.GenExport
+import Vita.C19.Exact
 open Vita.C19
 
 def hexVal (c : Char) : Nat :=
@@ -157,7 +159,8 @@ def flags (f : Fmt) (text model : List Ch) (t : Tree) : String :=
   s!"render={b01 (model == text)} sim={b01 (sim == model)} lex={b01 (toks == stripToks (toksT fns tms f t))} " ++
   s!"parse={b01 (parse f toks == some want)} ok={b01 (ok f hl a && flat want == toks)} " ++
   s!"term={b01 (termsOk (termSyn f fl) f t)} clean={b01 (termsOk clean f t)} " ++
-  s!"adm={b01 (wfT fns t && termsT (termOk f fl) tms f t && termsT (rendOk f fl) tms f t)}"
+  s!"adm={b01 (wfT fns t && termsT (termOk f fl) tms f t && termsT (rendOk f fl) tms f t)} " ++
+  s!"exact={b01 (exactT tms f t)}"
 
 def answer (line : String) : String :=
   match line.trimAscii.toString.splitOn " " with
